@@ -1,0 +1,24 @@
+//go:build verif
+
+// Copyright (c) HashiCorp, Inc.
+// SPDX-License-Identifier: MPL-2.0
+
+package bexpr
+
+import "github.com/hashicorp/go-bexpr/grammar"
+
+// Read-only accessors used by the verification harness in /verif. They are
+// compiled only with the build tag "verif" and change no behaviour.
+
+// VerifAST returns the syntax tree held by the evaluator.
+func VerifAST(eval *Evaluator) grammar.Expression {
+	return eval.ast
+}
+
+// VerifFilterEvaluator returns the evaluator wrapped by a filter (nil for the nil filter).
+func VerifFilterEvaluator(f *Filter) *Evaluator {
+	if f == nil {
+		return nil
+	}
+	return f.evaluator
+}
